@@ -419,13 +419,13 @@ def deleteObjectsPlan (e : Env) (b : Bytes) : List Bytes → List Bytes → Plan
   | k :: rest, paths =>
     withPath (getObjectPath e b k) [] fun p => deleteObjectsPlan e b rest (paths ++ [p])
 
-/-- `numbers.windows(2).any(|w| w[0] >= w[1])`: the listed part numbers are not strictly ascending (fa59617: they need not
+/-- `numbers.windows(2).any(|w| w[0] >= w[1])`: the listed part numbers are not strictly ascending (dbb8684: they need not
     be consecutive) -/
 def outOfOrder : List Int → Bool
   | a :: b :: t => decide (a ≥ b) || outOfOrder (b :: t)
   | _ => false
 
-/-- the probing pass of `complete_multipart_upload` (0096ef4: before anything is changed; a00e4e8: after the part list itself
+/-- the probing pass of `complete_multipart_upload` (0096ef4: before anything is changed; 0fcb858: after the part list itself
     has been validated): every listed part file is probed; the touches so far and the part paths, or the plan that ended
     there -/
 def completeCheck (e : Env) (u : Bytes) : List Int → List Touch → List Bytes → Except Plan (List Touch × List Bytes)
@@ -539,7 +539,7 @@ def plan (e : Env) (enc : Bytes → Bytes) : Op → Plan
       withPath (uploadInfoPath e u) [] fun info =>
       .ok [rd info, ⟨.list, .path e.root⟩, ⟨.read, .childrenPrefixed e.root (uploadPartPrefix u)⟩]
   | .completeMultipartUpload b k uploadId parts counter =>
-    -- a00e4e8: a request without a part list, or with an empty one, is refused before anything is looked at
+    -- 0fcb858: a request without a part list, or with an empty one, is refused before anything is looked at
     match parts with
     | none => .fail [] .malformedXML
     | some parts =>
@@ -549,7 +549,7 @@ def plan (e : Env) (enc : Bytes → Bytes) : Op → Plan
       | some u =>
         verifyUpload e u [] fun t1 =>
         withPath (getObjectPath e b k) t1 fun p =>
-        -- a00e4e8: the order of the numbers is checked before any part file is probed
+        -- 0fcb858: the order of the numbers is checked before any part file is probed
         if outOfOrder parts then .fail t1 .invalidPartOrder else
         match completeCheck e u parts t1 [] with
         | .error pl => pl
